@@ -272,6 +272,8 @@ func c08(c *Ctx) {
 		r.Check(len(es) == 0, "EFFECT", fkey(fn)+"/pure", c.Pos(fn.Pos()), "no write through the shared receiver", t.what+": "+strings.Join(ss, "; ")+" — every later caller sees them")
 	}
 	c08handlers(c)
+	c08recheck(c)
+	c08estimateNode(c)
 }
 
 // assumeLen0 / assumeEmpty set, for every comparison of len(<..suffix>) with 0 (of <..suffix> with ""), the outcome it has
